@@ -359,6 +359,9 @@ func trickName(z *zone, p string) name {
 	if len(z.apex) == 0 {
 		return name{p}
 	}
+	if len(p)+1+len(z.apex[0]) > 63 {
+		p = p[:63-1-len(z.apex[0])]
+	}
 	return z.apex.parent().child(p + "." + z.apex[0])
 }
 
